@@ -1,4 +1,5 @@
 """C01 Composeinfo survives a write/read cycle unchanged."""
+import io
 import json
 import os
 import tempfile
@@ -22,7 +23,33 @@ FLOORS = {"distinct_nontrivial": 150, "roundtrip:depth3": 10, "roundtrip:layered
           "roundtrip:dashed-top-uid-with-children": 10}
 
 case_strategy = st.fixed_dictionaries({"desc": cim.compose_desc(), "plan": st.sampled_from([0, 0, 1, 2, 3, 4, 5, 6, 7]),
-                                        "via_file": st.integers(0, 5).map(lambda i: i == 0)})
+                                        "via_file": st.integers(0, 5).map(lambda i: i == 0),
+                                        "stream": st.sampled_from([None, None, None, "fileobj", "nonseekable"])})
+
+
+class NonSeekable(io.TextIOBase):
+    """a readable text stream that cannot be rewound (pipe, socket, HTTP response)"""
+    def __init__(self, text):
+        io.TextIOBase.__init__(self)
+        self._io = io.StringIO(text)
+
+    def readable(self):
+        return True
+
+    def seekable(self):
+        return False
+
+    def read(self, n=-1):
+        return self._io.read(n)
+
+    def readline(self, n=-1):
+        return self._io.readline(n)
+
+    def seek(self, *a, **kw):
+        raise io.UnsupportedOperation("seek")
+
+    def tell(self):
+        raise io.UnsupportedOperation("tell")
 
 
 def diff(a, b, path=""):
@@ -64,6 +91,15 @@ def roundtrip(case):
                 text = fo.read()
             again = ComposeInfo()
             must("load", again.load, path)
+        elif case.get("stream"):
+            # load() documents "file-like object or path": an open stream, possibly one that cannot be rewound
+            out = io.StringIO()
+            must("dump-to-file-object", obj.dump, out)
+            text = out.getvalue()
+            check(text == must("dumps-valid-object", obj.dumps), "dump-to-file-object-differs", "dump(file object) and dumps() differ")
+            again = ComposeInfo()
+            must("load-from-%s" % case["stream"], again.load, io.StringIO(text) if case["stream"] == "fileobj" else NonSeekable(text))
+            must("validate-loaded", again.validate)
         else:
             text = must("dumps-valid-object", obj.dumps)
             again = ComposeInfo()
